@@ -527,7 +527,7 @@ def _last_component(glyf, a, e):
         p = q
 
 
-def foreign_variant(b, longloca=False, bit11=False, order_seed=None, glyph_pad4=False, loosebbox=None, compflags=None, emptyinstr=None):
+def foreign_variant(b, longloca=False, bit11=False, order_seed=None, glyph_pad4=False, loosebbox=None, compflags=None, emptyinstr=None, unitscale=None):
     """The same font as another conforming writer could have stored it: long 'loca' offsets although
     the glyph data is small (the reference WOFF2 decoder does this), head.flags bit 11 set (any font
     that went through WOFF2), table data laid out in another physical order. Plain single sfnt with
@@ -596,6 +596,37 @@ def foreign_variant(b, longloca=False, bit11=False, order_seed=None, glyph_pad4=
                             p, q = lc[0] - a, lc[1] - a
                             struct.pack_into(">H", g, p, u16(g, p) | 0x100)
                             g = g[:q] + b"\0\0"
+                            n_done += 1
+                    if len(g) % 2:
+                        g += b"\0"
+                    out += g
+                    noffs.append(len(out))
+                if ok and n_done and noffs[-1] < 0x20000:
+                    tabs["glyf"] = bytes(out)
+                    tabs["loca"] = struct.pack(">%dH" % (ng + 1), *[o // 2 for o in noffs])
+                    changed = True
+        if unitscale is not None and all(t in tabs for t in ("loca", "glyf", "maxp")) and i16(head, 50) == 0 and len(tabs["maxp"]) >= 6:
+            # first components that carry an explicit scale of exactly 1.0 (WE_HAVE_A_SCALE, F2Dot14 0x4000), as
+            # editors leave them after a scale was reset; glyf and loca are rewritten with the two extra bytes
+            import random
+
+            rr = random.Random(unitscale)
+            ng = u16(tabs["maxp"], 4)
+            loca = tabs["loca"]
+            if len(loca) == 2 * (ng + 1):
+                offs = [2 * o for o in struct.unpack(">%dH" % (ng + 1), loca)]
+                glyf = tabs["glyf"]
+                out, noffs, n_done = bytearray(), [0], 0
+                ok = offs[-1] <= len(glyf) and all(x <= y for x, y in zip(offs, offs[1:]))
+                for gi in range(ng if ok else 0):
+                    a, e = offs[gi], offs[gi + 1]
+                    g = bytearray(glyf[a:e])
+                    if e - a >= 16 and i16(glyf, a) < 0 and rr.random() < 0.6:
+                        fl = u16(g, 10)
+                        q = 14 + (4 if fl & 1 else 2)
+                        if not fl & 0xC8 and q <= len(g):
+                            struct.pack_into(">H", g, 10, fl | 0x8)
+                            g = g[:q] + b"\x40\x00" + g[q:]
                             n_done += 1
                     if len(g) % 2:
                         g += b"\0"
